@@ -45,7 +45,13 @@ type Monitor struct {
 	Context string
 	// CatchUps are the [start, end] event sequence numbers of every in-place reload (catch-up)
 	// that was actually executed on a back end.
-	CatchUps [][2]uint64
+	CatchUps []CatchUp
+}
+
+// CatchUp is one executed in-place reload.
+type CatchUp struct {
+	Start, End uint64
+	Ctx        string // Monitor.Context when the Reload call that performed it was made
 }
 
 // New creates a monitor.
@@ -253,6 +259,7 @@ func (b *Backend) Reload(path string) (db.DBI, error) {
 	p := b.m.popPlan()
 	b.m.mu.Lock()
 	b.m.Reloads++
+	ctx := b.m.Context
 	b.m.mu.Unlock()
 	if p.DelayBefore > 0 {
 		time.Sleep(p.DelayBefore)
@@ -278,7 +285,7 @@ func (b *Backend) Reload(path string) (db.DBI, error) {
 		if isCatchUp {
 			s1 := b.m.y.Seq()
 			b.m.mu.Lock()
-			b.m.CatchUps = append(b.m.CatchUps, [2]uint64{s0, s1})
+			b.m.CatchUps = append(b.m.CatchUps, CatchUp{s0, s1, ctx})
 			b.m.mu.Unlock()
 		}
 		if err == nil && nd != nil {
